@@ -83,7 +83,8 @@ def run(res, tier="quick", seed=0, widen=False):
     from groupby_lib.groupby import numba as nbf
 
     rng = random.Random(seed * 43 + 18 + (1 if widen else 0))
-    deltas = [-1, 1] if tier == "quick" else [-2, -1, 1, 2]
+    # 6 key rows: -5 leaves ONE element (nothing may broadcast it), -6 none, +6 doubles the length
+    deltas = [-1, 1, -5, -6] if tier == "quick" else [-2, -1, 1, 2, -5, -6, 6]
     keys_np = np.array(["a", "b", "a", "b", "c", "a"], dtype=object)
     index = pd.Index([10, 11, 12, 13, 14, 15])
     methods = discover(GroupBy)
